@@ -42,14 +42,15 @@ public:
 static void any_op(Operand_& o) { o._signature._bits = nondet_u32(); o._base_id = nondet_u32(); o._data[0] = nondet_u32(); o._data[1] = nondet_u32(); }
 static bool same_op(const Operand_& a, const Operand_& b) { return a._signature._bits == b._signature._bits && a._base_id == b._base_id && a._data[0] == b._data[0] && a._data[1] == b._data[1]; }
 
-// H1: one instruction with arbitrary id / options / extra register / 0..6 arbitrary operands / optional inline comment.
-template<uint32_t N> static void emit_roundtrip() {
+// H1a (capture): one instruction with arbitrary id / options / extra register / operands / optional inline comment is
+// stored in the node list verbatim, and the one-shot state is cleared exactly as an assembler clears it.
+template<uint32_t N> static void emit_capture() {
   BaseBuilder b;   // real constructor; not attached to a CodeHolder
   b._forced_inst_options = InstOptions::kNone;   // as after attach() without logger/validation: no slow path requested
-  nrecs = 0;
   Operand_ o[6];
-  const uint32_t n = N;
-  for (uint32_t i = 0; i < 6; i++) { o[i].reset(); if (i < n) any_op(o[i]); }
+  for (uint32_t i = 0; i < 6; i++) { o[i].reset(); if (i < N) any_op(o[i]); }
+  // The typed emit() overloads pass the extension operands (4th..6th) densely: none is never followed by an operand.
+  V_ASSUME(!(o[3].is_none() && (!o[4].is_none() || !o[5].is_none())) && !(o[4].is_none() && !o[5].is_none()));
   InstId id = nondet_u32();
   InstOptions opts = InstOptions(nondet_u32()) & ~InstOptions::kReserved;
   RegOnly extra; extra._signature._bits = nondet_u32(); extra._id = nondet_u32();
@@ -59,27 +60,166 @@ template<uint32_t N> static void emit_roundtrip() {
   Error e = b.BaseBuilder::_emit(id, o[0], o[1], o[2], &o[3]);
   V_ASSERT(e == Error::kOk, "builder accepts the call (no validation requested)");
   V_ASSERT(uint32_t(b._inst_options) == 0 && b._extra_reg._signature._bits == 0 && b._extra_reg._id == 0 && b._inline_comment == nullptr, "one-shot state cleared exactly as an assembler does");
+  BaseNode* first = b._node_list.first();
+  V_ASSERT(first != nullptr && first == b._node_list.last() && first == b._cursor, "exactly one node, cursor on it");
+  V_ASSERT(first->is_inst() && first->prev() == nullptr && first->next() == nullptr && first->is_active(), "it is an active instruction node with no neighbours");
+  InstNode* node = first->as<InstNode>();
+  V_ASSERT(node->inst_id() == id, "same instruction id");
+  V_ASSERT(node->options() == opts, "same options");
+  V_ASSERT(node->extra_reg()._signature._bits == extra._signature._bits && node->extra_reg()._id == extra._id, "same extra register");
+  uint32_t cnt = 0; for (uint32_t i = 0; i < 6; i++) if (!o[i].is_none()) cnt = i + 1;
+  V_ASSERT(node->op_count() == cnt, "operand count is the index of the last non-none operand plus one");
+  V_ASSERT(node->op_capacity() >= cnt && node->op_capacity() <= 6, "capacity covers the operands");
+  for (uint32_t i = 0; i < 6; i++) {
+    if (i < cnt && i < node->op_capacity()) V_ASSERT(same_op(node->operands_data()[i], o[i]), "operand stored verbatim");
+    else if (i < node->op_capacity()) V_ASSERT(node->operands_data()[i].is_none(), "unused operand slots are none");
+  }
+  const char* c = node->inline_comment();
+  V_ASSERT((c == nullptr) == (cmt == nullptr), "inline comment presence preserved");
+  if (cmt) V_ASSERT(c != text && c[0] == 'c' && c[1] == 'm' && c[2] == 't' && c[3] == 0, "inline comment text copied");
+  verif_observe(cnt); verif_observe(uint32_t(node->options()));
+  V_WITNESS("emit-capture");
+}
+HARNESS h_capture_0() { emit_capture<0>(); }
+HARNESS h_capture_1() { emit_capture<1>(); }
+HARNESS h_capture_3() { emit_capture<3>(); }
+HARNESS h_capture_4() { emit_capture<4>(); }
+HARNESS h_capture_6() { emit_capture<6>(); }
+
+// H1b (replay): serialize_to() on a list of typed nodes built by the harness (real node constructors, static typed storage)
+// replays each node as the emitter call with exactly the node's fields, in list order.
+template<typename T> union Raw { T v; Raw() noexcept {} ~Raw() noexcept {} };
+static Raw<InstNodeWithOperands<6>> st_inst;
+static Raw<LabelNode> st_label; static Raw<AlignNode> st_align; static Raw<EmbedLabelNode> st_elabel;
+static Raw<EmbedLabelDeltaNode> st_edelta; static Raw<CommentNode> st_comment;
+struct EmbedDataStorage { EmbedDataNode n; uint8_t payload[16]; };   // the node's data follows the node object
+static Raw<EmbedDataStorage> st_edata;
+
+template<uint32_t KIND, bool A_FIRST, uint32_t CNT> static void replay_two_nodes() {
+  BaseBuilder b;
+  nrecs = 0;
+  // node A: an instruction with arbitrary contents
+  Operand_ o[6]; const uint32_t cnt = CNT;   // concrete per instantiation: keeps every operand index concrete for the solver
+  InstId id = nondet_u32(); InstOptions opts = InstOptions(nondet_u32());
+  RegOnly extra; extra._signature._bits = nondet_u32(); extra._id = nondet_u32();
+  InstNode* A = new(Support::PlacementNew{&st_inst.v}) InstNodeWithOperands<6>(id, opts, cnt);
+  for (uint32_t i = 0; i < 6; i++) { o[i].reset(); if (i < cnt) { any_op(o[i]); A->set_op(i, o[i]); } }
+  A->reset_op_range(cnt, 6);
+  A->set_extra_reg(extra);
+  static const char text[] = "ca";
+  const char* cmtA = nondet_bool() ? text : nullptr;
+  A->set_inline_comment(cmtA);
+  // node B: one of the non-instruction node kinds
+  const uint32_t kind = KIND;
+  uint32_t x = nondet_u32(), y = nondet_u32(), z = nondet_u32();
+  static const uint8_t blob[4] = { 1, 2, 3, 4 };
+  BaseNode* B = nullptr;
+  switch (kind) {
+    case 0: B = new(Support::PlacementNew{&st_label.v}) LabelNode(x); break;
+    case 1: B = new(Support::PlacementNew{&st_align.v}) AlignNode(AlignMode(x & 3), y); break;
+    case 2: B = new(Support::PlacementNew{&st_elabel.v}) EmbedLabelNode(x, y); break;
+    case 3: B = new(Support::PlacementNew{&st_edelta.v}) EmbedLabelDeltaNode(x, y, z); break;
+    case 4: B = new(Support::PlacementNew{&st_comment.v}) CommentNode(text); break;
+    default: { EmbedDataNode* d = new(Support::PlacementNew{&st_edata.v.n}) EmbedDataNode(TypeId::kUInt8, 1, 4, (y & 3) + 1); memcpy(d->data(), blob, 4); B = d; break; }
+  }
+  const bool a_first = A_FIRST;
+  BaseNode* n0 = a_first ? static_cast<BaseNode*>(A) : B; BaseNode* n1 = a_first ? B : static_cast<BaseNode*>(A);
+  n0->_prev = nullptr; n0->_next = n1; n1->_prev = n0; n1->_next = nullptr;
+  b._node_list.reset(n0, n1);
   Recorder r;
   Error s = b.BaseBuilder::serialize_to(&r);
   V_ASSERT(s == Error::kOk, "serialize ok");
-  V_ASSERT(nrecs == 1 && recs[0].kind == 1, "exactly one _emit call replayed");
-  const Rec& q = recs[0];
-  V_ASSERT(q.inst_id == id, "same instruction id");
-  V_ASSERT(q.options == opts, "same options");
-  V_ASSERT(q.extra._signature._bits == extra._signature._bits && q.extra._id == extra._id, "same extra register");
-  // operands: everything up to the last non-none operand is replayed verbatim, the rest are none
-  uint32_t cnt = 0; for (uint32_t i = 0; i < 6; i++) if (!o[i].is_none()) cnt = i + 1;
+  V_ASSERT(nrecs == 2, "exactly two emitter calls");
+  const Rec& qa = recs[a_first ? 0 : 1]; const Rec& qb = recs[a_first ? 1 : 0];
+  V_ASSERT(qa.kind == 1 && qa.inst_id == id && qa.options == opts, "instruction node replayed as _emit with its id and options");
+  V_ASSERT(qa.extra._signature._bits == extra._signature._bits && qa.extra._id == extra._id, "extra register replayed");
   for (uint32_t i = 0; i < 6; i++) {
-    if (i < cnt) V_ASSERT(same_op(q.ops[i], o[i]), "operand replayed verbatim");
-    else V_ASSERT(q.ops[i].is_none(), "operands beyond the last one are none");
+    if (i < cnt) V_ASSERT(same_op(qa.ops[i], o[i]), "operand replayed verbatim");
+    else V_ASSERT(qa.ops[i].is_none(), "operands beyond the node's count are none");
   }
-  V_ASSERT((q.comment == nullptr) == (cmt == nullptr), "inline comment presence preserved");
-  if (cmt) V_ASSERT(q.comment[0] == 'c' && q.comment[1] == 'm' && q.comment[2] == 't' && q.comment[3] == 0, "inline comment text preserved");
-  verif_observe(cnt); verif_observe(uint32_t(q.options));
-  V_WITNESS("emit-roundtrip");
+  V_ASSERT(qa.comment == cmtA, "inline comment handed to the destination before the call");
+  switch (kind) {
+    case 0: V_ASSERT(qb.kind == 2 && qb.a == x, "label node replayed as bind(label)"); break;
+    case 1: V_ASSERT(qb.kind == 3 && qb.a == (x & 3) && qb.b == y, "align node replayed as align(mode, alignment)"); break;
+    case 2: V_ASSERT(qb.kind == 5 && qb.a == x && qb.d == y, "embed-label node replayed as embed_label(label, size)"); break;
+    case 3: V_ASSERT(qb.kind == 6 && qb.a == x && qb.b == y && qb.d == z, "label-delta node replayed as embed_label_delta(label, base, size)"); break;
+    case 4: V_ASSERT(qb.kind == 8 && qb.p == (const void*)text, "comment node replayed as comment(text)"); break;
+    default: V_ASSERT(qb.kind == 4 && qb.a == uint32_t(TypeId::kUInt8) && qb.d == 4 && qb.e == (y & 3) + 1 && ((const uint8_t*)qb.p)[0] == 1 && ((const uint8_t*)qb.p)[3] == 4, "data node replayed as embed_data_array(type, data, count, repeat)"); break;
+  }
+  verif_observe(kind); verif_observe(cnt);
+  V_WITNESS("replay");
 }
-HARNESS h_emit_rt_0() { emit_roundtrip<0>(); }
-HARNESS h_emit_rt_2() { emit_roundtrip<2>(); }
-HARNESS h_emit_rt_3() { emit_roundtrip<3>(); }
-HARNESS h_emit_rt_4() { emit_roundtrip<4>(); }
-HARNESS h_emit_rt_6() { emit_roundtrip<6>(); }
+#define H_REPLAY(K, C) HARNESS h_replay_k##K##_a() { replay_two_nodes<K, true, C>(); } HARNESS h_replay_k##K##_b() { replay_two_nodes<K, false, 6 - C>(); }
+H_REPLAY(0, 0) H_REPLAY(1, 1) H_REPLAY(2, 2) H_REPLAY(3, 3) H_REPLAY(4, 4) H_REPLAY(5, 5)
+
+// H3 (list editing): one edit from a well-formed list of L nodes with the cursor at position CUR (or no cursor) yields the
+// edited sequence with symmetric links, correct first/last/cursor and active flags; serialize_to then visits that sequence.
+static Raw<LabelNode> st_nodes[5];
+template<uint32_t L, int CUR>
+struct ListCtx {
+  BaseBuilder b; BaseNode* n[5]; uint32_t ids[5];
+  ListCtx() {
+    b._forced_inst_options = InstOptions::kNone;
+    for (uint32_t i = 0; i < 5; i++) { ids[i] = nondet_u32(); n[i] = new(Support::PlacementNew{&st_nodes[i].v}) LabelNode(ids[i]); }
+    for (uint32_t i = 0; i < L; i++) { n[i]->_prev = i ? n[i - 1] : nullptr; n[i]->_next = i + 1 < L ? n[i + 1] : nullptr; n[i]->_add_flags(NodeFlags::kIsActive); }
+    if (L) b._node_list.reset(n[0], n[L - 1]);
+    b._cursor = CUR >= 0 ? n[CUR] : nullptr;
+  }
+  // checks that the list is exactly seq[0..cnt) and that serialize_to replays bind() in that order
+  void expect(BaseNode* const* seq, uint32_t cnt, BaseNode* cursor) {
+    V_ASSERT((cnt == 0) == (b._node_list.first() == nullptr) && (cnt == 0) == (b._node_list.last() == nullptr), "empty list has no first and last");
+    BaseNode* p = b._node_list.first(); BaseNode* prev = nullptr;
+    for (uint32_t i = 0; i < cnt; i++) {
+      V_ASSERT(p == seq[i], "list order is the edited sequence");
+      V_ASSERT(p->prev() == prev && p->is_active(), "links are symmetric and members are active");
+      prev = p; p = p->next();
+    }
+    V_ASSERT(p == nullptr && b._node_list.last() == prev, "last node ends the list");
+    V_ASSERT(b._cursor == cursor, "cursor is where the documentation says");
+    if (cnt) {
+      nrecs = 0; Recorder r;
+      Error e = b.BaseBuilder::serialize_to(&r);
+      V_ASSERT(e == Error::kOk && nrecs == int(cnt), "serialize_to visits every node once");
+      for (uint32_t i = 0; i < cnt && i < 4; i++) V_ASSERT(recs[i].kind == 2 && recs[i].a == seq[i]->as<LabelNode>()->label_id(), "serialize_to replays the edited order");
+    }
+  }
+};
+
+template<uint32_t L, int CUR> static void edit_add_node() {   // add_node: after the cursor, or at the front when there is no cursor; cursor moves to it
+  ListCtx<L, CUR> c; BaseNode* x = c.n[4]; BaseNode* seq[5]; uint32_t k = 0;
+  if (CUR < 0) seq[k++] = x;
+  for (uint32_t i = 0; i < L; i++) { seq[k++] = c.n[i]; if (int(i) == CUR) seq[k++] = x; }
+  c.b.add_node(x);
+  c.expect(seq, L + 1, x); V_WITNESS("add-node");
+}
+template<uint32_t L, int REF, int CUR> static void edit_add_after_before(bool after) {
+  ListCtx<L, CUR> c; BaseNode* x = c.n[4]; BaseNode* seq[5]; uint32_t k = 0;
+  for (uint32_t i = 0; i < L; i++) { if (!after && int(i) == REF) seq[k++] = x; seq[k++] = c.n[i]; if (after && int(i) == REF) seq[k++] = x; }
+  if (after) c.b.add_after(x, c.n[REF]); else c.b.add_before(x, c.n[REF]);
+  c.expect(seq, L + 1, CUR >= 0 ? c.n[CUR] : nullptr); V_WITNESS("add-after-before");
+}
+template<uint32_t L, int FIRST, int LAST, int CUR> static void edit_remove() {   // remove_node (FIRST == LAST) / remove_nodes
+  ListCtx<L, CUR> c; BaseNode* seq[5]; uint32_t k = 0;
+  for (int i = 0; i < int(L); i++) if (i < FIRST || i > LAST) seq[k++] = c.n[i];
+  if (FIRST == LAST && nondet_bool()) c.b.remove_node(c.n[FIRST]); else c.b.remove_nodes(c.n[FIRST], c.n[LAST]);
+  for (int i = FIRST; i <= LAST; i++) V_ASSERT(!c.n[i]->is_active() && c.n[i]->prev() == nullptr && c.n[i]->next() == nullptr, "removed nodes are inactive and unlinked");
+  // a cursor inside the removed range moves to the node before the range
+  BaseNode* cur = CUR < 0 ? nullptr : (CUR >= FIRST && CUR <= LAST) ? (FIRST > 0 ? c.n[FIRST - 1] : nullptr) : c.n[CUR];
+  c.expect(seq, k, cur); V_WITNESS("remove");
+}
+HARNESS h_edit_add_node_empty() { edit_add_node<0, -1>(); }
+HARNESS h_edit_add_node_front() { edit_add_node<3, -1>(); }
+HARNESS h_edit_add_node_mid() { edit_add_node<3, 1>(); }
+HARNESS h_edit_add_node_end() { edit_add_node<3, 2>(); }
+HARNESS h_edit_add_after_mid() { edit_add_after_before<3, 1, 0>(true); }
+HARNESS h_edit_add_after_last() { edit_add_after_before<3, 2, 2>(true); }
+HARNESS h_edit_add_before_first() { edit_add_after_before<3, 0, -1>(false); }
+HARNESS h_edit_add_before_mid() { edit_add_after_before<3, 2, 1>(false); }
+HARNESS h_edit_remove_only() { edit_remove<1, 0, 0, 0>(); }
+HARNESS h_edit_remove_first() { edit_remove<4, 0, 0, 1>(); }
+HARNESS h_edit_remove_mid_cursor() { edit_remove<4, 1, 1, 1>(); }
+HARNESS h_edit_remove_last() { edit_remove<4, 3, 3, 3>(); }
+HARNESS h_edit_remove_range_mid() { edit_remove<4, 1, 2, 2>(); }
+HARNESS h_edit_remove_range_head() { edit_remove<4, 0, 1, 3>(); }
+HARNESS h_edit_remove_range_tail() { edit_remove<4, 2, 3, 0>(); }
+HARNESS h_edit_remove_range_all() { edit_remove<4, 0, 3, 2>(); }
